@@ -30,6 +30,8 @@ enum Role {
     VSetter,
     VGetter,
     Adder,
+    CounterList,
+    Nest,
 }
 
 struct FormRec {
@@ -70,6 +72,17 @@ const HELPERS: &[(&str, &str)] = &[
     ("vget", "(define (vget v i) (vector-ref v i))"),
     ("make-vsetter", "(define (make-vsetter v) (lambda (i x) (vector-set! v i x) x))"),
     ("make-vgetter", "(define (make-vgetter v) (lambda (i) (vector-ref v i)))"),
+    (
+        "collect",
+        "(define (collect k) (if (= k 0) '() (cons (make-counter (* k 10)) (collect (- k 1)))))",
+    ),
+    ("make-nest", "(define (make-nest n) (lambda () (lambda () (set! n (+ n 1)) n)))"),
+    (
+        "vswap!",
+        "(define (vswap! v i j) (define t (vector-ref v i)) (vector-set! v i (vector-ref v j)) (vector-set! v j t) t)",
+    ),
+    ("vfill2", "(define (vfill2 v i x) (vector-set! v i x) (vfill! v (+ i 1) x))"),
+    ("vfill!", "(define (vfill! v i x) (if (< i (vector-length v)) (vfill2 v i x) x))"),
     ("f0", "(define (f0) 10)"),
     ("f2", "(define (f2 a b) (+ a b))"),
     ("fr", "(define (fr a b . r) (+ a b))"),
@@ -108,6 +121,12 @@ impl Gen {
         }
         if helper == "each" {
             self.need("each2");
+        }
+        if helper == "collect" {
+            self.need("make-counter");
+        }
+        if helper == "vfill!" {
+            self.need("vfill2");
         }
         let text = HELPERS.iter().find(|(n, _)| *n == helper).expect("helper").1;
         self.helpers.insert(helper.to_string());
@@ -736,6 +755,109 @@ impl Gen {
                 self.emit(list(vec![sym("define"), sym(&name), path]), "alias-element", roots, false);
                 true
             }
+            22 => {
+                // closures created at different depths of one recursion: fresh bindings per call
+                if self.names_with(Role::CounterList).len() >= 2 {
+                    return false;
+                }
+                self.need("collect");
+                let name = self.fresh("cl");
+                let k = self.rng.range(2, 4);
+                self.roles.insert(name.clone(), Role::CounterList);
+                self.emit(
+                    list(vec![sym("define"), sym(&name), call("collect", vec![int(k)])]),
+                    "mk-counter-list",
+                    vec![name],
+                    true,
+                );
+                true
+            }
+            23 => {
+                let Some(name) = self.pick_name(Role::CounterList) else { return false };
+                let len = match self.m.root.lookup(&name) {
+                    Some(v) => crate::refint::list_to_vec(&v).map(|v| v.len()).unwrap_or(0),
+                    None => 0,
+                };
+                if len == 0 {
+                    return false;
+                }
+                let i = self.rng.upto(len);
+                let mut path = sym(&name);
+                for _ in 0..i {
+                    path = call("cdr", vec![path]);
+                }
+                let elem = call("car", vec![path]);
+                if self.rng.chance(1, 4) && self.names_with(Role::Counter).len() < 8 {
+                    let c = self.fresh("c");
+                    self.roles.insert(c.clone(), Role::Counter);
+                    self.emit(list(vec![sym("define"), sym(&c), elem]), "alias-list-counter", vec![name, c], false);
+                } else {
+                    self.emit(list(vec![elem]), "call-list-counter", vec![name], true);
+                }
+                true
+            }
+            24 => {
+                // closures made by ONE call share its binding; those of another call do not
+                let nests = self.names_with(Role::Nest);
+                if nests.len() < 2 && self.rng.chance(1, 2) {
+                    self.need("make-nest");
+                    let name = self.fresh("nf");
+                    self.roles.insert(name.clone(), Role::Nest);
+                    let start = self.small_lit();
+                    self.emit(
+                        list(vec![sym("define"), sym(&name), call("make-nest", vec![int(start)])]),
+                        "mk-nest",
+                        vec![name],
+                        false,
+                    );
+                    return true;
+                }
+                let Some(nf) = self.pick_name(Role::Nest) else { return false };
+                if self.names_with(Role::Counter).len() >= 8 {
+                    return false;
+                }
+                let c = self.fresh("c");
+                self.roles.insert(c.clone(), Role::Counter);
+                self.emit(list(vec![sym("define"), sym(&c), list(vec![sym(&nf)])]), "counter-from-nest", vec![nf, c], false);
+                true
+            }
+            25 => {
+                // a write whose value comes from one effectful call, through an argument alias
+                let Some(cn) = self.pick_name(Role::Counter) else { return false };
+                let Some((path, id, mut roots)) = self.vec_path() else { return false };
+                if !self.m.vectors[id].mutable || self.m.vectors[id].items.is_empty() {
+                    return false;
+                }
+                self.need("vset!");
+                let i = self.rng.upto(self.m.vectors[id].items.len()) as i64;
+                roots.push(cn.clone());
+                self.emit(
+                    call("vset!", vec![path, int(i), list(vec![sym(&cn)])]),
+                    "vset-from-counter",
+                    roots,
+                    true,
+                );
+                true
+            }
+            26 => {
+                let Some((path, id, roots)) = self.vec_path() else { return false };
+                let len = self.m.vectors[id].items.len();
+                if !self.m.vectors[id].mutable || len < 2 {
+                    return false;
+                }
+                if self.rng.chance(1, 2) {
+                    self.need("vswap!");
+                    let i = self.rng.upto(len) as i64;
+                    let j = self.rng.upto(len) as i64;
+                    self.emit(call("vswap!", vec![path, int(i), int(j)]), "vswap", roots, true);
+                } else {
+                    self.need("vfill!");
+                    let from = self.rng.upto(len) as i64;
+                    let x = self.small_lit();
+                    self.emit(call("vfill!", vec![path, int(from), int(x)]), "vfill", roots, true);
+                }
+                true
+            }
             _ => false,
         }
     }
@@ -1182,7 +1304,7 @@ pub fn generate_a(seed: u64, quick: bool, faults: bool) -> Value {
     let hash_seed = rng.next_u64() | 1;
     // swarm configuration
     let steps = if quick { rng.range(10, 40) } else { rng.range(10, 60) } as usize;
-    let nops = 22;
+    let nops = 27;
     let mut weights: Vec<u32> = (0..nops).map(|_| if rng.chance(1, 4) { 0 } else { rng.range(1, 6) as u32 }).collect();
     if weights.iter().all(|w| *w == 0) {
         weights[0] = 1;
@@ -1556,7 +1678,7 @@ impl Engine for EngineA {
         if self.faults { "fault_enumeration" } else { "exploration" }
     }
     fn runs(&self, quick: bool) -> u64 {
-        if quick { 20_000 } else { 1_000_000 }
+        if quick { 40_000 } else { 1_500_000 }
     }
     fn generate(&self, seed: u64, quick: bool) -> Value {
         generate_a(seed, quick, self.faults)
@@ -1577,6 +1699,21 @@ impl Engine for EngineA {
     }
     fn shrink(&self, case: &Value) -> Vec<Value> {
         let mut out = shrink_list(case, "forms");
+        // inside a procedure definition: drop body statements other than the last
+        if let Some(forms) = case["forms"].as_array() {
+            for (fi, f) in forms.iter().enumerate() {
+                let Ok(Sx::List(v)) = parse_one(f["t"].as_str().unwrap_or("")) else { continue };
+                if v.len() > 3 && v[0].as_sym() == Some("define") && matches!(v[1], Sx::List(_) | Sx::Dotted(..)) {
+                    for bi in 2..v.len() - 1 {
+                        let mut w = v.clone();
+                        w.remove(bi);
+                        let mut fs = forms.clone();
+                        fs[fi]["t"] = json!(Sx::List(w).to_text());
+                        out.push(with_field(case, "forms", json!(fs)));
+                    }
+                }
+            }
+        }
         // disarm dynamic sites
         if let Some(a) = case["armed"].as_object() {
             for k in a.keys() {
